@@ -10,6 +10,7 @@ pub mod dirsem;
 pub mod excl;
 pub mod insn;
 pub mod ops;
+pub mod pass;
 pub mod refisa;
 pub mod roles;
 #[cfg(not(kani))]
@@ -603,6 +604,42 @@ harnesses! {
     c05_func_log2_neg { prop: C05, feat: "c05", tier: thorough, mode: full, unwind: 7, caps: "run=2,clone=1,drop=2,loop:avra_lib::expr::Expr::run_nested.0=67" } => |s| c05::ev_func(s, 9, 10, 0);
     // (pass-level scenarios of step.rs are not registered: the smallest one reached 9.7 GB in the third
     //  iteration of pass 1 after 20 min even with process / Item::clone replaced by models - DESIGN.md 0)
+    // ---- pass-level scenarios on stack-backed inputs (pass.rs): real build_pass_1 + build_pass_2
+    p02_instr_0 { prop: X02, feat: "c02", tier: thorough, mode: leaf, unwind: 6, caps: "drop=1" } => |s| pass::layout_instr(s, 0, false);
+    p02_instr_1 { prop: X02, feat: "c02", tier: thorough, mode: leaf, unwind: 6, caps: "drop=1" } => |s| pass::layout_instr(s, 1, false);
+    p02_instr_2 { prop: X02, feat: "c02", tier: thorough, mode: leaf, unwind: 6, caps: "drop=1" } => |s| pass::layout_instr(s, 2, false);
+    p02_instr_3 { prop: X02, feat: "c02", tier: thorough, mode: leaf, unwind: 6, caps: "drop=1" } => |s| pass::layout_instr(s, 3, false);
+    p02_instr_2_avr8l { prop: X02, feat: "c02", tier: thorough, mode: leaf, unwind: 6, caps: "drop=1" } => |s| pass::layout_instr(s, 2, true);
+    p02_instr_3_avr8l { prop: X02, feat: "c02", tier: thorough, mode: leaf, unwind: 6, caps: "drop=1" } => |s| pass::layout_instr(s, 3, true);
+    p06_db_1 { prop: X06, feat: "c06", tier: thorough, mode: leaf, unwind: 6, caps: "drop=1" } => |s| pass::layout_db(s, 1);
+    p06_db_2 { prop: X06, feat: "c06", tier: thorough, mode: leaf, unwind: 6, caps: "drop=1" } => |s| pass::layout_db(s, 2);
+    p06_db_3 { prop: X06, feat: "c06", tier: thorough, mode: leaf, unwind: 6, caps: "drop=1" } => |s| pass::layout_db(s, 3);
+    p02_eeprom_cont { prop: X02, feat: "c02", tier: thorough, mode: leaf, unwind: 6, caps: "drop=1" } => |s| pass::eeprom_blocks(s, false);
+    p02_eeprom_org { prop: X02, feat: "c02", tier: thorough, mode: leaf, unwind: 6, caps: "drop=1" } => |s| pass::eeprom_blocks(s, true);
+    p06_reserve { prop: X06, feat: "c06", tier: thorough, mode: leaf, unwind: 6, caps: "drop=1" } => |s| pass::reservations(s, false);
+    p06_reserve_org { prop: X06, feat: "c06", tier: thorough, mode: leaf, unwind: 6, caps: "drop=1" } => |s| pass::reservations(s, true);
+    p06_wrongseg_0 { prop: X06, feat: "c06", tier: thorough, mode: leaf, unwind: 6, caps: "drop=1" } => |s| pass::wrong_segment(s, 0);
+    p06_wrongseg_1 { prop: X06, feat: "c06", tier: thorough, mode: leaf, unwind: 6, caps: "drop=1" } => |s| pass::wrong_segment(s, 1);
+    p06_wrongseg_2 { prop: X06, feat: "c06", tier: thorough, mode: leaf, unwind: 6, caps: "drop=1" } => |s| pass::wrong_segment(s, 2);
+    p06_wrongseg_3 { prop: X06, feat: "c06", tier: thorough, mode: leaf, unwind: 6, caps: "drop=1" } => |s| pass::wrong_segment(s, 3);
+    p06_wrongseg_4 { prop: X06, feat: "c06", tier: thorough, mode: leaf, unwind: 6, caps: "drop=1" } => |s| pass::wrong_segment(s, 4);
+    p06_wrongseg_5 { prop: X06, feat: "c06", tier: thorough, mode: leaf, unwind: 6, caps: "drop=1" } => |s| pass::wrong_segment(s, 5);
+    p06_wrongseg_6 { prop: X06, feat: "c06", tier: thorough, mode: leaf, unwind: 6, caps: "drop=1" } => |s| pass::wrong_segment(s, 6);
+    p10_set_seq { prop: X10, feat: "c10", tier: thorough, mode: leaf, unwind: 6, caps: "drop=1" } => |s| pass::set_sequence(s, 0);
+    p10_set_frozen { prop: X10, feat: "c10", tier: thorough, mode: leaf, unwind: 6, caps: "drop=1" } => |s| pass::set_sequence(s, 1);
+    p10_set_dseg { prop: X10, feat: "c10", tier: thorough, mode: leaf, unwind: 6, caps: "drop=1" } => |s| pass::set_in_dseg(s);
+    p10_set_conflict { prop: X10, feat: "c10", tier: thorough, mode: leaf, unwind: 6, caps: "drop=1" } => |s| pass::set_conflict(s);
+    p10_def { prop: X10, feat: "c10", tier: thorough, mode: leaf, unwind: 6, caps: "drop=1" } => |s| pass::def_undef(s, 0);
+    p10_undef { prop: X10, feat: "c10", tier: thorough, mode: leaf, unwind: 6, caps: "drop=1" } => |s| pass::def_undef(s, 1);
+    p10_undef_use { prop: X10, feat: "c10", tier: thorough, mode: leaf, unwind: 6, caps: "drop=1" } => |s| pass::def_undef(s, 2);
+    p10_duplabel_0 { prop: X10, feat: "c10", tier: thorough, mode: leaf, unwind: 6, caps: "drop=1" } => |s| pass::duplicate_label(s, 0);
+    p10_duplabel_1 { prop: X10, feat: "c10", tier: thorough, mode: leaf, unwind: 6, caps: "drop=1" } => |s| pass::duplicate_label(s, 1);
+    p10_duplabel_2 { prop: X10, feat: "c10", tier: thorough, mode: leaf, unwind: 6, caps: "drop=1" } => |s| pass::duplicate_label(s, 2);
+    p10_duplabel_3 { prop: X10, feat: "c10", tier: thorough, mode: leaf, unwind: 6, caps: "drop=1" } => |s| pass::duplicate_label(s, 3);
+    p13_pass2_mul { prop: X13, feat: "c13", tier: thorough, mode: leaf, unwind: 6, caps: "drop=1" } => |s| pass::gate_in_pass2(s, 0);
+    p13_pass2_ldx { prop: X13, feat: "c13", tier: thorough, mode: leaf, unwind: 6, caps: "drop=1" } => |s| pass::gate_in_pass2(s, 1);
+    p13_pass2_lpmz { prop: X13, feat: "c13", tier: thorough, mode: leaf, unwind: 6, caps: "drop=1" } => |s| pass::gate_in_pass2(s, 2);
+    p02_offsets { prop: X02, feat: "c02", tier: thorough, mode: leaf, unwind: 6, caps: "drop=1" } => |s| pass::running_offsets(s);
     // ---- directive-level semantics (Directive::parse on the parse context's segment list)
     c02_dir_org_lit { prop: C02, feat: "c02", tier: quick, mode: leaf, unwind: 4, caps: "drop=1" } => |s| dirsem::dir_org(s, 0);
     c02_dir_org_sym { prop: C02, feat: "c02", tier: quick, mode: leaf, unwind: 4, caps: "drop=1" } => |s| dirsem::dir_org(s, 1);
